@@ -140,8 +140,8 @@ def hist2d(x, y, values, xmin, xmax, nx, ymin, ymax, ny):
     dy = (ymax - ymin) / ny
 
     for i in prange(len(x)):
-        indx = int((x[i] - xmin) / dx)
-        indy = int((y[i] - ymin) / dy)
+        indx = int(np.floor((x[i] - xmin) / dx))
+        indy = int(np.floor((y[i] - ymin) / dy))
         if (indx >= 0) and (indx < nx) and (indy >= 0) and (indy < ny):
             out[:, indy, indx] += values[:, i]
             counts[indy, indx] += 1
